@@ -771,7 +771,13 @@ class CodeGen:
 
     def st_array(self, s):
         nm = self.new_var("A")
-        if s.get("rows"):
+        if s.get("nest"):
+            def nest(x):
+                if isinstance(x, list):
+                    return "Array([%s])" % ", ".join(nest(y) for y in x)
+                return self.ex(x)
+            src = nest(s["nest"])
+        elif s.get("rows"):
             src = "Array([%s])" % ", ".join("Array([%s])" % ", ".join(self.ex(x) for x in row) for row in s["rows"])
         else:
             src = "Array([%s])" % ", ".join(self.ex(x) for x in s["els"])
@@ -798,8 +804,13 @@ class CodeGen:
             tgt = "%s[%s]" % (self.var("A", s["arr"]), self.ex(ix))
         if s.get("row_from") is not None:
             # whole-row assignment: the row read at (usually secret) index row_from
-            src = "%s[%s] = %s[%s]" % (self.var("A", s["arr"]), self.ex(ix[0]), self.var("A", s["arr"]),
-                                       self.ex(s["row_from"]))
+            rf = s["row_from"]
+            if isinstance(rf, list):
+                src = "%s[%s] = %s[%s]" % (self.var("A", s["arr"]), ", ".join(self.ex(i) for i in ix),
+                                           self.var("A", s["arr"]), ", ".join(self.ex(i) for i in rf))
+            else:
+                src = "%s[%s] = %s[%s]" % (self.var("A", s["arr"]), self.ex(ix[0]), self.var("A", s["arr"]),
+                                           self.ex(rf))
         else:
             src = "%s = %s" % (tgt, self.ex(s["value"]))
         self.wrap_try(s, lambda: self.emit(src))
